@@ -42,6 +42,7 @@ PROPS["C15"] = {
     ],
 }
 
+_STEPS_PLACEHOLDER_C10 = []
 PROPS["C10"] = {
     "strict_witness": True,
     "level": "model_checking",
@@ -51,17 +52,18 @@ PROPS["C10"] = {
     "harnesses": [
         H("inode.VerifInodeRoundTrip", q={}, t={}),
         H("fh.VerifFhRoundTrip", q={}, t={}),
-    ],
+    ] + _STEPS_PLACEHOLDER_C10,
 }
 
 PROPS["C06"] = {
-    "unclaimed": True,
     "level": "model_checking",
+    "monitor_harnesses": ["VerifStep", "VerifC06LockInodes"],
     "explanation": "lock-acquisition order of lockInodes and of every RPC decided symbolically (ascending order => no cycle; no re-acquisition => no self-wait)",
     "assumptions": JOURNAL + ["termination under interference (fairness) is not decided"],
     "outside": ["real interleavings; fairness"],
     "harnesses": [
-        H("nfs.VerifSortKernel", q={}, t={}),
+        H("nfs.VerifC06LockInodes", covers=("locked", "aborted"), q={"symaddr": 1, "slots": 1, "marked": 0, "zeroalloc": 0, "dirslots": 3, "disksz": 10000},
+          t={"symaddr": 1, "slots": 3, "marked": 0, "zeroalloc": 0, "dirslots": 3, "disksz": 10000}, budget_s=300, budget_s_t=1500),
     ],
 }
 
@@ -155,6 +157,55 @@ PROPS["C08"] = {
         H("nfs.VerifC08Stale", q=STEPQ, t=STEPT, lmax=3, budget_s=300, budget_s_t=1500),
         H("nfs.VerifC08Handles", covers=("end", "lookup-ok", "create-ok", "crossed", "readdirplus-3"), q=dict(STEPQ, inums=1), t=STEPT, lmax=3, budget_s=300, budget_s_t=1500),
     ],
+}
+
+
+def _steps(flag, procs=(1, 2, 3, 4), extra_q=None, extra_t=None):
+    hs = []
+    for k in procs:
+        q = dict(STEPQ, inums=1, offsets=0, procs=k, **{flag: 1})
+        t = dict(STEPT, procs=k, **{flag: 1})
+        q.update(extra_q or {})
+        t.update(extra_t or {})
+        hs.append(H("nfs.VerifStep", covers=("ok", "err"), q=q, t=t, lmax=3, budget_s=400, budget_s_t=3000, tag="procs%d" % k))
+    return hs
+
+
+PROPS["C09"] = {
+    "unclaimed": True,
+    "level": "model_checking",
+    "explanation": "every procedure executed symbolically from an arbitrary valid state; on every path whose reply is not NFS3_OK: no journal append, every allocated number handed back, no background work started, and every cached inode equal to the decoding of the (unchanged) logical disk",
+    "assumptions": JOURNAL + ["pre-state satisfies Inv (DESIGN.md §4)", "representative inode/block numbers (bound R_addr)"],
+    "outside": ["name-cache contents after a failed request are compared only through C10's lookup witness", "more than B_blocks blocks / B_bytes bytes per request"],
+    "harnesses": _steps("p09", (1, 2, 3)),
+}
+
+
+PROPS["C10"]["harnesses"] += _steps("p10", (1, 2))
+PROPS["C10"]["strict_witness"] = False
+PROPS["C09"].pop("unclaimed", None)
+PROPS["C06"]["harnesses"] += _steps("p06", (1, 2, 3, 4))
+
+
+PROPS["C03"] = {
+    "level": "other",
+    "monitor_harnesses": ["VerifStep"],
+    "technique": "bounded symbolic execution of each RPC with lock/journal/access monitors; decides the sufficient condition (strict two-phase locking, replies built under the lock), not linearizability over schedules",
+    "explanation": "sufficient condition only: every symbolic path of every RPC obeys strict two-phase locking (no lock acquired after a release within a transaction; every access to a cached inode, including the ones that build the reply, happens under that inode's lock). Schedules are not explored; the classical theorem strict 2PL + commit order => serializable is assumed.",
+    "assumptions": JOURNAL + ["lockmap, allocator mutex and journal are linearizable themselves (dependency)", "theorem: strict two-phase locking implies serializability in commit order"],
+    "outside": ["real goroutine interleavings", "the background shrinker racing with requests"],
+    "harnesses": _steps("p03", (1, 2, 3, 4)),
+}
+
+
+PROPS["C14"] = {
+    "level": "other",
+    "monitor_harnesses": ["VerifStep", "VerifC14Background"],
+    "technique": "bounded symbolic execution with a lockset monitor (Eraser-style discipline per shared object); decides a sufficient condition for race freedom, not the race detector's verdict over schedules",
+    "explanation": "sufficient condition only: on every symbolic path of every RPC, of the shrinker thread, of shutdown/crash and of the statistics code, each access to a cached inode happens under that inode's lock, each access to the shrinker's counters, the inode cache's tables and the allocator's bitmap under their mutex, and the statistics counters only through sync/atomic",
+    "assumptions": JOURNAL + ["go-journal's own threads (logger, installer) are race free (dependency)", "lockset discipline implies absence of data races on the monitored objects"],
+    "outside": ["the Go race detector itself; races on objects that are not monitored", "real interleavings"],
+    "harnesses": [H("nfs.VerifC14Background", covers=("shrinker", "crash", "stats"), q=dict(STEPQ, inums=1), t=STEPT, lmax=3, budget_s=300)] + _steps("p14", (1, 2, 3, 4)),
 }
 
 
